@@ -504,6 +504,51 @@ var witnesses = []witness{
 		w.x("rollback")
 		return e
 	}},
+	{id: "F47", props: []string{"C12"}, what: "s3db_changes was empty from the second scan of its cursor on (inner table of a join, correlated subquery)", run: func(w *wEnv) string {
+		w.mk("t", "k primary key, a", sqlh.TableOpts{EntriesPerNode: 4})
+		for k := 0; k < 5; k++ {
+			w.x("insert into t values(?,'x')", k)
+		}
+		if r := w.x(`create virtual table c using s3db_changes(table='t', from='[]')`); r != "ok" {
+			return "create: " + r
+		}
+		if e := wantEq("join with the changes table as the inner loop", w.q("select count(*) from (select 1 as x union all select 2 union all select 3) o cross join c"), i(15)); e != "" {
+			return e
+		}
+		return wantEq("correlated subquery", w.q("select (select count(*) from c where c.k >= o.x) from (select 1 as x union all select 2 union all select 3) o"), i(4)+" | "+i(3)+" | "+i(2))
+	}},
+	{id: "F48", props: []string{"C20", "C06"}, what: "a column without a type was declared with the type of the column before it", run: func(w *wEnv) string {
+		if r := w.mk("t", "a integer primary key, b, c text, d", sqlh.TableOpts{}); r != "ok" {
+			return "create: " + r
+		}
+		return wantEq("declared types", w.q("select type from pragma_table_info('t') order by cid"), t("INTEGER")+" | "+t("")+" | "+t("TEXT")+" | "+t(""))
+	}},
+	{id: "F49", props: []string{"C20"}, what: "a trailing comma and keywords run together were accepted in the columns argument", run: func(w *wEnv) string {
+		for n, cols := range []string{"a, b,", "a primary key, b,  ", "a notnull, b", "a primarykey, b", "a, b, primarykey(a)", "a, b, primary key(a,)"} {
+			if r := w.mk(fmt.Sprintf("t%d", n), cols, sqlh.TableOpts{}); !strings.HasPrefix(r, "ERR") {
+				return fmt.Sprintf("columns='%s' accepted: %s", cols, r)
+			}
+		}
+		if r := w.mk("ok1", "a PRIMARY   KEY, b NOT\tNULL, c  not null  unique", sqlh.TableOpts{}); !strings.HasPrefix(r, "ERR") {
+			return "UNIQUE after NOT NULL accepted: " + r
+		}
+		if r := w.mk("ok2", "a number nOT  NULL  pRIMaRy keY, b", sqlh.TableOpts{}); r != "ok" {
+			return "two constraints in a row: " + r
+		}
+		return ""
+	}},
+	{id: "F50", props: []string{"C20"}, what: "an option value written without quotes was rewritten (s3_prefix=007 opened the prefix 7)", run: func(w *wEnv) string {
+		for n, pfx := range []string{"007", "1e3", "2024.10", "0x10"} {
+			name := fmt.Sprintf("t%d", n)
+			if r := w.x(fmt.Sprintf(`create virtual table %s using s3db (columns='a primary key', s3_bucket='%s', s3_endpoint='%s', s3_prefix=%s)`, name, w.bucket, sqlh.Endpoint, pfx)); r != "ok" {
+				return "create: " + r
+			}
+			if got := s3db.GetTable(name).S3Options.Prefix; got != pfx {
+				return fmt.Sprintf("s3_prefix=%s opened the prefix %q", pfx, got)
+			}
+		}
+		return ""
+	}},
 	{id: "F15", props: []string{"C03"}, what: "an open racing with a commit showed an empty table (kv level)", run: func(w *wEnv) string {
 		// covered exhaustively by the proto stream; here: a version that left root/current/ between LIST and GET
 		return ""
